@@ -273,8 +273,11 @@ def fn_history(spec, rec):
             return a + values_of(find(m["deps"][1])) * 2
         return a * 2 + m["k"]
 
+    # the pixel attribute can be an input of derived attributes and the target of update_id, but is never removed
+    pix = {"name": "pix", "cid": data.pixel_component_ids[0], "kind": "stored", "deps": [], "vals": base.copy()}
+
     def find(name):
-        for m in model:
+        for m in model + [pix]:
             if m["name"] == name:
                 return m
         raise KeyError(name)
@@ -283,7 +286,9 @@ def fn_history(spec, rec):
         comps = [c for c in data.components if c not in data.coordinate_components]
         if [id(c) for c in comps] != [id(m["cid"]) for m in model]:
             raise Mismatch("component-set-or-order-differs", {"where": where, "got": [str(c) for c in comps], "expected": [m["name"] for m in model]})
-        for m in model:
+        if len(data.pixel_component_ids) != 1 or data.pixel_component_ids[0] is not pix["cid"]:
+            raise Mismatch("pixel-attribute-list-differs-after-" + where[0], {"where": where, "got": [str(c) for c in data.pixel_component_ids]})
+        for m in model + [pix]:
             try:
                 got = data[m["cid"]]
             except Exception as e:  # noqa
@@ -303,11 +308,12 @@ def fn_history(spec, rec):
             data.add_component(vals, name)
             model.append({"name": name, "cid": data.id[name], "kind": "stored", "deps": [], "vals": vals})
         elif kind == "derived":
-            src = model[op[1] % len(model)]
+            sources = model + [pix]
+            src = sources[op[1] % len(sources)]
             name = "v%d" % counter[0]
             counter[0] += 1
             if op[3] and len(model) > 1:
-                src2 = model[op[2] % len(model)]
+                src2 = sources[op[2] % len(sources)]
                 data.add_component(src["cid"] + src2["cid"] * 2, name)
                 cid = data.id[name]
                 model.append({"name": name, "cid": cid, "kind": "derived", "deps": [src["name"], src2["name"]]})
@@ -335,8 +341,14 @@ def fn_history(spec, rec):
                 removed_with_dependents = True
             model[:] = [m for m in model if m["name"] not in gone]
         elif kind == "update_id":
-            target = model[op[1] % len(model)]
-            new = ComponentID(target["name"] + "n")
+            sources = model + [pix]
+            target = sources[op[1] % len(sources)]
+            if target is pix:
+                from glue.core.component_id import PixelComponentID
+                new = PixelComponentID(0, target["name"] + "n")
+                rec.label("update_id-of-pixel-attribute")
+            else:
+                new = ComponentID(target["name"] + "n")
             if any(target["name"] in m["deps"] for m in model):
                 updated_with_dependent = True
             data.update_id(target["cid"], new)
